@@ -56,6 +56,7 @@ def run(ctx):
   other_layouts(ctx)
   sharded_triple(ctx)
   sharded_update_layout(ctx)
+  sharded_record_conversion(ctx)
   sketchy_buffer_widths(ctx)
   from . import C13
   C13.slice_back(ctx)
@@ -64,6 +65,44 @@ def run(ctx):
   validation(ctx)
   dead_stores(ctx)
   transformation_wiring(ctx)
+
+
+def sharded_record_conversion(ctx):
+  """R2c: the sharded update works on ParameterStats views of the sharded state and writes them back: every per-parameter
+  field goes through both conversions under its own name (diagonal_statistics -> diagonal_statistics, ...), the static
+  fields index_start / sizes are carried over from the old local record.  A field left out of the write-back (easy with
+  `.replace(...)`) silently freezes that part of the state - e.g. the grafting accumulator - in sharded mode only."""
+  m = ctx.model
+  ft = m.func(MOD, '_convert_to_parameter_stats')
+  ff = m.func(MOD, '_convert_from_parameter_stats')
+  ctx.analysed(ft, ff)
+  shared = ['diagonal_statistics', 'diagonal_momentum', 'momentum', 'avg_grad', 'training_metrics']
+  ev = evaluator(m)
+  ps = T('rec', m.cls(MOD, 'ParameterStats').fq, tuple((n, sym('slot', 'p_' + n)) for n in
+                                                      ['diagonal_statistics', 'statistics', 'preconditioners', 'diagonal_momentum', 'momentum', 'avg_grad', 'training_metrics']))
+  ls = T('rec', m.cls(MOD, 'LocalShardedParameterStats').fq, tuple((n, sym('slot', 'l_' + n)) for n in shared + ['index_start', 'sizes']))
+  r = ev.run(ff, args={'parameter_stats': ps, 'local_stats': ls})
+  rf = rec_fields(r)
+  okc = rf is not None and r.op == 'rec' and r.args[0].endswith('.LocalShardedParameterStats')
+  ctx.ob('C07.R2', ff.short, 'write-back builds a LocalShardedParameterStats', okc, f'got `{show(r, maxdepth=3)[:120]}`', ctx.loc(ff), sample='LocalShardedParameterStats(...)')
+  if okc:
+    for n in shared:
+      ctx.ob('C07.R2', ff.short, f'write-back of `{n}`', rf.get(n) is sym('slot', 'p_' + n),
+             f'the updated `{n}` of the parameter view must be written back to the local record; got `{show(rf.get(n, NONE), maxdepth=3)[:100]}` '
+             '(a field that is not written back stays at its initial value in sharded mode)', ctx.loc(ff), sample=f'{n} = parameter_stats.{n}')
+    for n in ('index_start', 'sizes'):
+      ctx.ob('C07.R2', ff.short, f'static `{n}` carried over', rf.get(n) is sym('slot', 'l_' + n),
+             f'`{n}` must be taken from the old local record; got `{show(rf.get(n, NONE), maxdepth=3)[:100]}`', ctx.loc(ff), sample=f'{n} = local_stats.{n}')
+  ev2 = evaluator(m, opaque={'_precond_dim'})
+  r2 = ev2.run(ft, args={'local_stat': ls, 'global_stats': sym('spec', 'G'), 'compression_rank': sym('spec', 'r')})
+  rf2 = rec_fields(r2)
+  okt = rf2 is not None and r2.op == 'rec' and r2.args[0].endswith('.ParameterStats')
+  ctx.ob('C07.R2', ft.short, 'view is a ParameterStats', okt, f'got `{show(r2, maxdepth=3)[:120]}`', ctx.loc(ft), sample='ParameterStats(...)')
+  if okt:
+    for n in shared:
+      ctx.ob('C07.R2', ft.short, f'view of `{n}`', rf2.get(n) is sym('slot', 'l_' + n),
+             f'the parameter view must expose the local record\'s `{n}` under the same name; got `{show(rf2.get(n, NONE), maxdepth=3)[:100]}`', ctx.loc(ft),
+             sample=f'{n} = local_stat.{n}')
 
 
 def sketchy_buffer_widths(ctx):
